@@ -428,13 +428,81 @@ def proj_fields(pl):
     return [p["f"] for p in pl["p"] if isinstance(p, dict) and "f" in p]
 
 
+def std_paths(data):
+    """no_std build: the same library items print as alloc::/core:: paths; rules name them by their std:: path."""
+    data = json.loads(re.sub(r'(?<![\w:])(?:alloc|core)::', 'std::', json.dumps(data)))
+    data["_std_paths"] = True
+    return data
+
+
+_FN_NAMES = None
+
+
+def fn_names_table():
+    global _FN_NAMES
+    if _FN_NAMES is None:
+        p = os.path.join(VERIF, "tables", "fn_names.json")
+        _FN_NAMES = json.load(open(p)) if os.path.exists(p) else {}
+    return _FN_NAMES
+
+
+def apply_renames(data):
+    """Rules are anchored to function def-paths. A pure rename or move of a function must not turn into an alarm: when a
+    recorded function (tables/fn_names.json) is missing and exactly one function that is *new* has the recorded
+    signature (same parameter types as a multiset, same return type, same impl type), the new path is treated as an
+    alias of the recorded one: it is rewritten to the recorded path throughout the fact base, so every rule analyses
+    the renamed function's body under the name it knows. Ambiguous or signature-changing cases are left alone (the
+    rule then fails closed on its missing anchor, as before)."""
+    table = fn_names_table()
+    cfg = data.get("config")
+    if not table:
+        data["_renames"] = {}
+        return data
+    cur = {p: f for p, f in data["fns"].items() if f.get("kind") in ("fn", "assocfn") and "{closure" not in p}
+    missing = [p for p, e in table.items() if cfg in e.get("configs", ()) and p not in cur]
+    new = [p for p in cur if p not in table and "unicodetables" not in (cur[p].get("file") or "")]
+    if not missing or not new:
+        data["_renames"] = {}
+        return data
+
+    def sig(e):
+        return (tuple(sorted(e.get("inputs") or [])), e.get("output"))
+
+    def same_home(a, b):
+        # same impl type (methods) or both free functions; the module may differ (moves)
+        return (a.get("impl_self") or "").split("::")[-1] == (b.get("impl_self") or "").split("::")[-1] and \
+            (a.get("impl_trait") or "") == (b.get("impl_trait") or "")
+    aliases = {}
+    for m in missing:
+        cands = [n for n in new if sig(cur[n]) == sig(table[m]) and same_home(cur[n], table[m])]
+        if len(cands) > 1:
+            same_name = [n for n in cands if n.split("::")[-1] == m.split("::")[-1]]
+            cands = same_name if len(same_name) == 1 else cands
+        if len(cands) == 1 and cands[0] not in aliases.values():
+            # the recorded function must be the only missing one that could claim this candidate
+            rivals = [m2 for m2 in missing if m2 != m and sig(table[m2]) == sig(table[m]) and same_home(table[m2], table[m])]
+            if not rivals:
+                aliases[m] = cands[0]
+    if not aliases:
+        data["_renames"] = {}
+        return data
+    txt = json.dumps(data)
+    for old, newp in sorted(aliases.items(), key=lambda kv: -len(kv[1])):
+        txt = re.sub(re.escape(json.dumps(newp)[1:-1]) + r'(?![A-Za-z0-9_])', lambda _m: json.dumps(old)[1:-1], txt)
+        # a moved free function also changes the short form used inside its own module's closures etc.: covered by the path
+    data = json.loads(txt)
+    data["_renames"] = {v: k for k, v in aliases.items()}
+    return data
+
+
 class Facts:
     def __init__(self, data):
         if data.get("config") == "alloc" and not data.get("_std_paths"):
-            # no_std build: the same library items print as alloc::/core:: paths; rules name them by their std:: path
-            data = json.loads(re.sub(r'(?<![\w:])(?:alloc|core)::', 'std::', json.dumps(data)))
-            data["_std_paths"] = True
+            data = std_paths(data)
+        if "_renames" not in data:
+            data = apply_renames(data)
         self.data = data
+        self.renames = data.get("_renames", {})
         self.config = data["config"]
         self.fns = data["fns"]
         self.hir = data["hir"]
@@ -471,6 +539,21 @@ class Facts:
         if line is None:
             line = f.get("lo")
         return "%s:%s" % (f.get("file", "?"), line)
+
+    def owner_of(self, fn, depth=0):
+        """The recorded function a body belongs to for per-function review tables (panic triage, cast triage, builder
+        lists): closures belong to their parent; a function that is *new* (absent from tables/fn_names.json) and is
+        called from exactly one function is a piece split off that caller and belongs to it."""
+        base = re.sub(r"(::\{closure#\d+\})+$", "", fn)
+        table = fn_names_table()
+        if not table or base in table or depth > 3:
+            return base
+        cg = self.callgraph()
+        callers = {re.sub(r"(::\{closure#\d+\})+$", "", c) for c, outs in cg.items()
+                   if any(re.sub(r"(::\{closure#\d+\})+$", "", o) == base for o in outs)} - {base}
+        if len(callers) == 1:
+            return self.owner_of(next(iter(callers)), depth + 1)
+        return base
 
     # ---- call graph -----------------------------------------------------------------------
     def callgraph(self):
